@@ -785,3 +785,36 @@ def large_buffer_case(rng, tables, minimum=70000):
         total += len(b)
     ops = ["P 0", "B 0 " + hexs(b"".join(pk)), "P 1"] + ["B 1 " + hexs(b) for b in pk]
     return Case("large-buffer", ops, {"n": len(pk)})
+
+
+def many_packets_case(rng, tables, n=None):
+    """hundreds of small packets chained in one call (more than any 8-bit counter holds), and the
+    same packets one per call"""
+    n = n or rng.choice([257, 300, 513])
+    ex = Exporter(rng, tables, True)
+    ex.ids = [256, 257]
+    pk = []
+    for i in range(n):
+        k = rng.random()
+        if k < 0.5:
+            pk.append(minimal_packet(rng, rng.choice([5, 7, 9, 10])))
+        elif k < 0.7:
+            pk.append(fixed_packet(rng, rng.choice([5, 7]), nrec=1)[0])
+        else:
+            pk.append(rand_packet(rng, ex, (9, 10))[0])
+    ops = ["P 0", "B 0 " + hexs(b"".join(pk)), "P 1"] + ["B 1 " + hexs(b) for b in pk]
+    return Case("many-packets", ops, {"n": n})
+
+
+def toggling_case(rng, tables):
+    """one parser whose allowed_versions set is changed between calls: what was filtered must have
+    left no trace, what was learned while allowed must still be there"""
+    ex = Exporter(rng, tables, True)
+    ex.ids = [256, 257, 300]
+    ops = ["P 0"]
+    for _ in range(rng.choice([4, 6, 10])):
+        allowed = [v for v in (5, 7, 9, 10) if rng.random() < 0.6]
+        ops.append("A 0 " + (",".join(map(str, allowed)) if allowed else "-"))
+        buf = b"".join(rand_packet(rng, ex)[0] for _ in range(rng.choice([1, 2, 3])))
+        ops.append("B 0 " + hexs(buf))
+    return Case("toggling-allowed", ops)
